@@ -54,6 +54,12 @@ CLAIMED = {
         "note": "Unmodelled: type errors of type-correct code, StopIteration of the repository's own token generators, resource exhaustion, plugin code; external raisers are a frozen table with reasons. Known findings F18 (ODS OSError) and F27 (--create on open Integer range).",
         "design_ref": "DESIGN.md section 2.6, 2.7 and section 4, C10",
     },
+    "C11": {
+        "technique": "decision tables of DataFormat.__init__/set_property/setters/_validated_* and validate by abstract interpretation over format x property x value pools folded from the module's constants; token-kind table of _validated_character; documentation agreement",
+        "text": "Every (format, property, value) from the pools is set to the documented internal value or refused with a located InterfaceError, never another exception; defaults as documented; character spellings go through the same helpers as ranges; the three documented contradictions are refused by validate; documented properties and quote characters agree with the code.",
+        "note": "Value pools are the module's own constant sets plus representative invalid values; codec names are decided by codecs.lookup.",
+        "design_ref": "DESIGN.md section 4, C11",
+    },
     "C13": {
         "technique": "abstract interpretation of rowio.fixed_rows (incl. nested delimiter automaton and push-back) on every abstract character stream over the class abstraction {CR, LF, other} up to a length bound; oracle = the statement (identity-tracked reproduction of the input, reference segmentation)",
         "text": "For every stream up to 5 (thorough 7) abstract characters, three width lists and the five delimiter settings: rows have exact widths and reproduce the input with permitted delimiters, or DataFormatError is raised and no well-formed segmentation exists.",
